@@ -93,8 +93,13 @@ func genC10(r *sim.Rand, tier string) *sim.Program {
 	return p
 }
 
+// order of the SM9 groups (GM/T 0044.5), frozen literal
+var c10OrderN, _ = new(big.Int).SetString("B640000002A3A6F1D603AB4FF58EC74449F2934B18EA8BEEE56EE19CD69ECF25", 16)
+
 type c10User struct {
 	uid        []byte
+	uidBuf     []byte // the application's buffer: uid || other live data (0xA5...) - uid has spare capacity over it
+	uidWant    []byte // private copy of the identifier
 	hidS, hidE byte
 	sign       *sm9.SignPrivateKey
 	enc        *sm9.EncryptPrivateKey
@@ -177,10 +182,32 @@ func execC10(t *testing.T, p *sim.Program, c *sim.Ctx) {
 		}
 		return true
 	}
+	var prevKind string
+	// every identifier is a sub-slice of a larger application buffer: no call may write behind (or into) it
+	uidIntact := func(i int, kind string) bool {
+		for _, u := range users {
+			for k, b := range u.uidBuf {
+				if (k < len(u.uidWant) && b != u.uidWant[k]) || (k >= len(u.uidWant) && b != 0xA5) {
+					c.Fail("caller-buffer-modified", i, kind, "a call of this operation wrote into the buffer that holds a user identifier (%d bytes) at offset %d", len(u.uidWant), k)
+					return false
+				}
+			}
+		}
+		return true
+	}
+	defer func() {
+		if !c.Failed() {
+			uidIntact(len(p.Ops)-1, prevKind)
+		}
+	}()
 	for i, op := range p.Ops {
 		if c.Failed() {
 			return
 		}
+		if !uidIntact(i-1, prevKind) {
+			return
+		}
+		prevKind = op.K
 		c.OpsDone++
 		switch op.K {
 		case "user":
@@ -188,7 +215,9 @@ func execC10(t *testing.T, p *sim.Program, c *sim.Ctx) {
 			if len(uid) > 200 {
 				uid = uid[:200]
 			}
-			u := &c10User{uid: uid, hidS: 1, hidE: 3}
+			ub := append(append([]byte{}, uid...), bytes.Repeat([]byte{0xA5}, 24)...)
+			uid = ub[:len(uid)] // spare capacity, with somebody else's live bytes behind
+			u := &c10User{uid: uid, uidBuf: ub, uidWant: append([]byte{}, uid...), hidS: 1, hidE: 3}
 			if op.Int(0)%5 == 0 {
 				u.hidS, u.hidE = byte(op.Int(0)), byte(op.Int(0)>>3)
 			}
@@ -302,6 +331,17 @@ func execC10(t *testing.T, p *sim.Program, c *sim.Ctx) {
 			if !sm9.Verify(spub, u.uid, u.hidS, msg, hBig, tree.Children[1].Content[1:]) {
 				c.Fail("honest-signature-rejected", i, op.K, "sm9.Verify (h as *big.Int, %d bits) rejects the signature that VerifyASN1 accepts", hBig.BitLen())
 				return
+			}
+			// h is an integer in [1, N-1] (GM/T 0044.2 B.1: "check that h' is in [1, N-1]"); the congruent value h + N, where it
+			// still fits into 32 octets, is another encoding of the same residue and must be refused by every entry point
+			if hn := new(big.Int).Add(hBig, c10OrderN); hn.BitLen() <= 256 {
+				alt := append([]byte{}, sig...)
+				hn.FillBytes(alt[tree.Children[0].Off+tree.Children[0].HdrLen : tree.Children[0].Off+tree.Children[0].HdrLen+32])
+				c.Hit("fault:h-plus-order")
+				if sm9.VerifyASN1(spub, u.uid, u.hidS, msg, alt) || sm9.Verify(spub, u.uid, u.hidS, msg, hn, tree.Children[1].Content[1:]) {
+					c.Fail("altered-signature-accepted", i, op.K, "a signature whose h was replaced by h + N (out of range, same residue) verifies")
+					return
+				}
 			}
 			if op.Int(1)%3 == 0 {
 				h2, s2, err := sm9.Sign(rd(op.Int(1), "sig2"), u.sign, msg)
